@@ -16,6 +16,10 @@ class MachineryError(Exception):
     pass
 
 
+# bounded-memory sampling that happened in this run (reported in the evidence; "exhaustive" is then false)
+SAMPLING = []
+
+
 def _java(args, env=None, timeout=None, heap="4g", to_file=None):
     cmd = ["java", "-XX:+UseParallelGC", "-Xmx" + heap, "-cp", JAR, "tlc2.TLC"] + args
     e = dict(os.environ)
@@ -98,7 +102,7 @@ def run_mc(tag, module, cfg, workers=16, timeout=1200, simulate=None, seed=None,
     res = {"rc": rc, "wall_s": round(wall, 2), "generated": 0, "distinct": 0,
            "errors": [], "tr": [], "complete": False, "raw_tail": "", "tr_total": 0}
     # TR lines beyond MAXTR are reservoir-sampled (seeded): a bounded, reproducible subset
-    maxtr = int(os.environ.get("VERIF_MAXTR", "400000"))
+    maxtr = int(os.environ.get("VERIF_MAXTR", "200000"))
     import random
     rng = random.Random(hash_tag(tag))
     kept = []
@@ -132,6 +136,8 @@ def run_mc(tag, module, cfg, workers=16, timeout=1200, simulate=None, seed=None,
     os.remove(outfile)
     out = "\n".join(tail)
     res["raw_tail"] = out[-3000:]
+    if res["tr_total"] > len(kept):
+        SAMPLING.append({"what": "transitions printed by TLC (%s)" % tag, "total": res["tr_total"], "kept": len(kept)})
     for line in kept:
         try:
             res["tr"].append(json.loads(json.loads(line)[3:]))
